@@ -12,7 +12,7 @@ DEFAULT_TAGS = ['C20']
 
 def build(ctx):
     s = Src(ctx, 'peripheral/questrade_statement_fmv_impl.rs').cut_tests().standard()
-    s.only(['struct Fmv', 'mod sm', 'fn parse_fmvs_from_page'], why='month line, abbreviations, rendering, threading and the CLI are string / pdf code')
+    s.only(['struct Fmv', 'mod sm', 'fn parse_fmvs_from_page', 'struct StatementFmvs', 'fn parse_statement_text'], why='abbreviations, rendering, threading and the CLI are string / pdf code')
     s.sub(r'(?ms)^\s*use [^;]*;\n', '', 'select')
     s.sub(r'(?ms)^    lazy_static! \{.*?^    \}\n', '', 'R25')       # the three regex tables -> crate::rex::ReId
     s.sub(r'\b(\w+_RE)\.(is_match|captures)\(', r'crate::rex::\2(crate::rex::ReId::\1, ', 'R25')
@@ -25,8 +25,22 @@ def build(ctx):
     s.replace('        state: State,', '        pub state: State,', 'R14')
     s.replace('        security_desc: String,', '        pub security_desc: String,', 'R14')
     s.replace('    enum State {', '    pub enum State {', 'R14')
+    # parse_statement_text: page selection and the month line
+    s.sub(r"(?s)pub fn parse_statement_text<'a, I, T>\(pages: I\) -> Result<StatementFmvs, SError>\s*where\s*I: Iterator<Item = T>,\s*T: std::borrow::Borrow<String> \+ 'a,\s*\{",
+          "pub fn parse_statement_text<'a>(pages: Vec<&'a String>) -> Result<StatementFmvs, SError>\n{", 'R35', required=True)
+    s.sub(r'\bpage\.borrow\(\)', 'page.as_str()', 'R35', required=True)
+    s.note('R35', 'generic page iterator `I: Iterator<Item = T>, T: Borrow<String>` -> `Vec<&String>` (the list of page texts), `page.borrow()` -> `page.as_str()`')
+    s.sub(r'(?s)let current_month_re = RegexBuilder::new\(.*?\.unwrap\(\);', 'let current_month_re = crate::rex::ReId::CURRENT_MONTH_RE;', 'R25', required=True)
+    s.sub(r'(?s)let fmv_page_marker =\s*Regex::new\(r"Securities\\s\+Owned\\s\+Combined\\s\+in\\s\+\\\(CAD\\\)"\)\.unwrap\(\);', 'let fmv_page_marker = crate::rex::ReId::FMV_PAGE_MARKER;', 'R25', required=True)
+    s.replace('current_month_re.captures(page.as_str())', 'crate::rex::captures(current_month_re, page.as_str())', 'R25')
+    s.replace('fmv_page_marker.is_match(page.as_str())', 'crate::rex::is_match(fmv_page_marker, page.as_str())', 'R25')
+    s.sub(r'(?s)if let Ok\(month\) = parse_month\(m\.name\("month"\)\.unwrap\(\)\.as_str\(\)\) \{.*?\n                \}\n',
+          'if let Some(d) = crate::rex::month_line_date(&m)? {\n                    month_date = Some(d);\n                }\n', 'H', required=True)
+    s.for_continue_to_else()
+    s.replace('let some_month = month_date.ok_or("Could not find month")?;', 'let some_month = hole_month_or_err(month_date)?;', 'H')
+    s.replace('Err("Did not find FMVs in statement".to_string())', 'Err(crate::rex::to_string("Did not find FMVs in statement"))', 'R26')
     s.ext_fn('security_text_to_fmv', why='regex groups + decimal parsing of one security text; contract: a function of the text')
-    inner_use = "use crate::rust_decimal::Decimal;\nuse crate::util::basic::SError;\n"
+    inner_use = "use crate::rust_decimal::Decimal;\nuse crate::util::basic::SError;\nuse crate::time::Date;\nuse vstd::std_specs::iter::IteratorSpec;\n"
     body = inner_use + s.text().replace("mod sm {\n", "pub mod sm {\nuse vstd::prelude::*;\nuse crate::rust_decimal::Decimal;\nuse crate::util::basic::SError;\nuse super::Fmv;\n", 1)
     d = os.path.join(os.path.dirname(os.path.dirname(os.path.abspath(__file__))), 'shim')
     head = shim('base', 'std').replace(MARKER, '') + open(os.path.join(d, 'fmv_stubs.rs')).read() + MARKER
